@@ -34,6 +34,8 @@ def strategy(draw):
     nchrom = draw(st.sampled_from([1, 1, 2, 3, 6]))
     names = draw(st.lists(st.sampled_from(["chr1", "chr2", "chr3", "chr4", "chr5", "chrX", "chrY"]), min_size=nchrom, max_size=nchrom, unique=True))
     names.sort(key=lambda c: ["chr1", "chr2", "chr3", "chr4", "chr5", "chrX", "chrY"].index(c))
+    if draw(st.integers(0, 2)) == 0:
+        names = [c[3:] for c in names]  # plain naming style: 1..5, X, Y
     chroms = []
     for nm in names:
         n = draw(st.one_of(st.integers(1, 12), st.integers(1, 120), st.integers(103, 400)))
@@ -210,7 +212,7 @@ def check_case(case):
         tb = "".join(traceback.format_exception(type(exc), exc, exc.__traceback__))
         where = "hmm_get_model" if "hmm_get_model" in tb else "other"
         # the HMM's emission spread is estimated from the autosomal survivors (all survivors if none is autosomal)
-        auto = [k for k in alive if k[0] not in ("chrX", "chrY")]
+        auto = [k for k in alive if k[0] not in ("chrX", "chrY", "X", "Y")]
         nfit = len(auto) if auto else len(alive)
         out.append({"clause": f"crash:ZeroDivisionError@{where}", "nsurv": nfit,
                     "detail": f"{len(alive)} surviving bins, {nfit} used to fit the emission spread; {tb[-600:]}"})
